@@ -37,11 +37,17 @@ def cases(tier):
     for ssm in cm.SSMS:
         for calib in ("none", "mle", "dynamic"):
             for lin in ("ts0", "ts1"):
+                if calib == "dynamic" and lin == "ts1" and tier == "quick":
+                    continue    # minutes per case: thorough tier
                 out.append(f"step/{ssm}/filter/{calib}/{lin}/o1q1d1/damp_sym")
         out.append(f"step/{ssm}/filter/none/ts0/o2q2d1/damp_sym")
         out.append(f"step/{ssm}/filter/none/ts1/o2q2d1/damp_zero")
         out.append(f"step/{ssm}/filter/none/ts0/o1q1d2/damp_zero")
-        out.append(f"step/{ssm}/filter/dynamic_relin/ts1/o1q1d1/damp_zero")
+        out.append(f"step/{ssm}/filter/dynamic_relin/{'ts0' if tier == 'quick' else 'ts1'}/o1q1d1/damp_zero")
+    for ssm in cm.SSMS:
+        out.append(f"grid2/{ssm}/filter/none/ts0/o1q1d1/damp_zero")
+        out.append(f"grid2/{ssm}/filter/mle/ts1/o1q1d1/damp_zero")
+        out.append(f"grid2/{ssm}/filter/dynamic/ts0/o1q1d{1 if ssm == 'dense' else 2}/damp_sym")
     if tier == "thorough":
         for ssm in cm.SSMS:
             out.append(f"step/{ssm}/filter/none/ts1/o1q1d2/damp_zero")
@@ -115,10 +121,91 @@ def build_step(key):
     return make, goals
 
 
+def build_grid(key, nsteps=2, init="inexact"):
+    """solve_fixed_grid end to end == init followed by the solver's own steps, stacked, at the right
+    times (relational: both sides are the real code in one trace; the step itself is decided by the
+    one-step obligations, so this closes the induction 'init + step => all grids' for the driver)."""
+    cfg = sc.parse_key(key)
+    d, n = cfg.d, cfg.n
+
+    def make(dom):
+        from probdiffeq import ivpsolve
+        co = sc.field_coeffs(dom, d, cfg.order, degree=2)
+        prior_c = sc.concrete_prior(cfg)
+        prior_s, pinfo = sc.sym_prior(dom, cfg, prior_c)
+        _, Normal = cm.impl(cfg.ssm)
+        m0, _ = cm.sym_rv(dom, cfg.ssm, n, d, "i")
+        ms, cs = cm.rv_shapes(cfg.ssm, n, d)
+        L0 = sym_array(dom, "iL", cs, "diag") if init == "inexact" else np.zeros(cs)
+        prior_s.init = Normal(m0, L0, prior_c.init.tree_flatten)
+        t0 = sym_array(dom, "t0", ())
+        hs = [sym_array(dom, f"h{i + 1}", (), unit=True) for i in range(nsteps)]
+        grid = np.empty((nsteps + 1,), dtype=object)
+        acc = t0[()]
+        grid[0] = acc
+        for i in range(nsteps):
+            acc = acc + hs[i][()]
+            grid[i + 1] = acc
+        damp = sym_array(dom, "damp", ()) if cfg.damp == "sym" else np.zeros(())
+
+        def fn(prior, grid, damp, co, hs):
+            solver, _, _ = sc.make_solver(cfg, co)
+            sol = ivpsolve.solve_fixed_grid(solver=solver)(prior, grid=grid, damp=damp)
+            s = solver.init(t=grid[0], u=prior, damp=damp)
+            states = [s]
+            for i in range(nsteps):
+                s = solver.step(s, dt=hs[i], damp=damp)
+                states.append(s)
+            aux = [st.auxiliary for st in states]
+            return (sol.t, sol.u, sol.output_scale, sol.num_steps), [(st.t, st.u, st.output_scale) for st in states], aux
+        return fn, (prior_s, grid, damp, co, hs)
+
+    def goals(args, out, orc):
+        (ts, u, oscale, nst), states, aux = out
+        N = nsteps
+        res = {}
+        um = orc.arr(u.mean_flat); uc = orc.arr(u.cholesky_flat)
+        # calibration applied by userfriendly_output (independent statement of the documented rule)
+        if cfg.calib == "mle":
+            run = orc.arr(aux[-1][1])
+            import math
+            if orc.sym:
+                sN = orc.dom.sqrt_const(N) if cfg.correct else Poly.const(1)
+                scale = run * orc.dom.div(Poly.const(1), sN)
+            else:
+                scale = run / (math.sqrt(N) if cfg.correct else 1.0)
+            scale = orc.arr(scale)
+        else:
+            scale = None
+        for i in range(N + 1):
+            st_t, st_u, st_os = states[i]
+            res[f"mean[{i}]"] = (um[i], orc.arr(st_u.mean_flat))
+            ci = orc.arr(st_u.cholesky_flat)
+            if scale is not None:
+                sc_ = scale.reshape(scale.shape + (1,) * (ci.ndim - scale.ndim)) if scale.ndim else scale
+                ci = ci * sc_
+            res[f"chol[{i}]"] = (uc[i], ci)
+        tt = np.array([sc.sc(orc.arr(st[0])) for st in states], dtype=object if orc.sym else float)
+        res["t"] = (orc.arr(ts), tt)
+        res["num_steps"] = (orc.arr(nst), orc.arr(np.arange(1, N + 1)))
+        osc = orc.arr(oscale)
+        if cfg.calib == "mle":
+            want = np.stack([scale] * osc.shape[0])
+        elif cfg.calib.startswith("dynamic"):
+            want = np.stack([orc.arr(st[2]) for st in states])
+        else:
+            want = orc.arr(np.ones(np.shape(oscale)))
+        res["output_scale"] = (osc, want)
+        return res
+    return make, goals
+
+
 def _case(case_id, tier):
     kind, key = case_id.split("/", 1)
     if kind == "step":
         make, goals = build_step(key)
+    elif kind == "grid2":
+        make, goals = build_grid(key, nsteps=2)
     else:
         raise KeyError(kind)
     return PCase("C02/" + case_id, make, goals, budget_s=300 if tier == "quick" else 1200)
